@@ -6,6 +6,7 @@ package main
 //	multi  : F(A) F(B) C            A, B files over metrics {1}, {2}, {1,2} (curated block shapes per metric)
 //	triple : F(A) F(B) F(C) C       metric 1, curated block shapes
 //	l1     : F F C F F C            an earlier compaction produced a level-1 file (overlapping or not)
+//	wide   : F(A) F(B) C            slot range of 362 slots (> 360) next to short ones
 //	seq    : all sequences of length <= 4 over {flush of a curated file, compact}; threshold 0
 //	         (Family.Compact(), >=2 L0 files) and threshold 1 (store job: trivial move, 1 x L0 + L1 merges)
 //	roll   : MaxFileSize = 1 (one output file per metric) over metrics subsets of {1,2,3}
@@ -327,12 +328,26 @@ func forEachCase(thorough bool, f func(c *Case) bool) {
 			return
 		}
 	}
+	// wide: slot ranges longer than 360 slots (heap path of the down-sampling aggregator) next to short ones
+	wide := alphabet{series: []uint8{s0 | s65536, sAll}, fields: []uint8{fSum, fMin | fMax, fAll1}, slots: []int{4, 3, 2}}
+	if !product(single(wide.blocks(1)), 2, func(t [][]Block) bool {
+		return emit("wide", 0, 0, flush(t[0]), flush(t[1]), compactStep)
+	}) {
+		return
+	}
 	// MaxFileSize=1 with a single metric never rolls the output into a second file: safe in-process
 	if !product(single(curated1(8)), 2, func(t [][]Block) bool {
 		return emit("pair-mfs1", 1, 0, flush(t[0]), flush(t[1]), compactStep)
 	}) {
 		return
 	}
+}
+
+// minimalRollCase: two level-0 files holding one metric each (one series, one field, one slot), MaxFileSize=1:
+// the merged output needs two files.
+func minimalRollCase() *Case {
+	return &Case{Family: "roll-min", MaxFileSize: 1, Steps: []Step{
+		flush([]Block{{1, s0, fSum, 2}}), flush([]Block{{2, s0, 1, 2}}), compactStep}}
 }
 
 // forEachRollCase enumerates the roll-over part ("roll"): MaxFileSize = 1, metrics subsets of {1,2,3};
@@ -351,7 +366,11 @@ func forEachRollCase(thorough bool, f func(c *Case) bool) {
 		return
 	}
 	// an earlier (rolled) compaction left several level-1 files; the next one overlaps some of them
-	if !product(rollFiles(1), 4, func(t [][]Block) bool {
+	l1 := rollFiles(1)
+	if !thorough {
+		l1 = [][]Block{l1[0], l1[2], l1[3], l1[5], l1[6]} // {3}, {2,3}, {1}, {1,2}, {1,2,3}
+	}
+	if !product(l1, 4, func(t [][]Block) bool {
 		return emit("roll-l1", 0, flush(t[0]), flush(t[1]), compactStep, flush(t[2]), flush(t[3]), compactStep)
 	}) {
 		return
@@ -366,7 +385,8 @@ func forEachRollCase(thorough bool, f func(c *Case) bool) {
 		return
 	}
 	if thorough {
-		if !sequences(rollFiles(1), 4, func(steps []Step) bool { return emit("roll-seq4", 0, steps...) }) {
+		r1 := rollFiles(1)
+		if !sequences([][]Block{r1[0], r1[2], r1[5], r1[6]}, 4, func(steps []Step) bool { return emit("roll-seq4", 0, steps...) }) {
 			return
 		}
 	}
